@@ -140,3 +140,15 @@ def hostname_of_url(u):
     except ValueError:
         ref = None
     return get_hostname(u) == ref
+
+
+def fingerprinted_stems_without_suffix(u):
+    """fingerprinted_lru_stems(strip_suffix=True, suffix_aware=True) == stems of the suffix-less fingerprint"""
+    try:
+        f = fingerprint_url(u, strip_suffix=True)
+        ref = lru_stems(f, suffix_aware=True)
+    except Exception:
+        return True
+    if f == u.lower() or not _has_host(u):
+        return True
+    return fingerprinted_lru_stems(u, suffix_aware=True, strip_suffix=True) == _drop_scheme(ref)
